@@ -141,7 +141,62 @@ def real_histories(ctx):
             gw.exit()
             (own_group or execnet.default_group).terminate(timeout=3)
         cases.append({"events": evs, "history": h, "made_by": make.__name__})
+    cases.append(group_round_case())
     return cases
+
+
+def group_round_case():
+    """two main_thread_only members driven through Group.remote_exec / MultiChannel.waitclose(): the round ends (for the caller) when
+    MultiChannel.waitclose() is over - also when it raises the failure of the first member - and the next round is then a sequential
+    submission for every member: it must run.  Events are those of the second member."""
+    import execnet
+
+    g = execnet.Group()
+    g.set_execmodel("thread", "main_thread_only")
+    evs = []
+
+    def ev(e, op="", chan=0, tok=0, res="", flag=False):
+        evs.append({"ev": e, "side": "i", "op": op, "chan": chan, "tok": tok, "res": res, "thread": "u1", "flag": flag})
+
+    try:
+        g.makegateway("popen//id=a")
+        g.makegateway("popen//id=b")
+        start = "import threading, time\nchannel.send(('start', threading.current_thread() is threading.main_thread()))\n"
+        ev("call", "remote_exec", tok=1)
+        mch = g.remote_exec(start + "if channel.gateway.id == 'a-worker':\n    raise RuntimeError('BOOM in body')\ntime.sleep(1.8)\nchannel.send(1)")
+        ch = mch[1]
+        ev("ret", "remote_exec", ch.id, res="ok")
+        first = ch.receive(20)
+        ev("body_start", "", ch.id, flag=bool(first[1]))
+        res = "ok"
+        try:
+            mch.waitclose()
+        except ch.RemoteError:
+            pass
+        except Exception as e:  # noqa: BLE001
+            res = "exc:" + type(e).__name__
+        ev("body_end", "", ch.id)
+        ev("ret", "waitclose", ch.id, res=res)
+        ev("call", "remote_exec", tok=1)
+        mch2 = g.remote_exec(start + "channel.send(1)")
+        ch2 = mch2[1]
+        ev("ret", "remote_exec", ch2.id, res="ok")
+        try:
+            for item in ch2:
+                if isinstance(item, tuple) and item[0] == "start":
+                    ev("body_start", "", ch2.id, flag=bool(item[1]))
+            ch2.waitclose(20)
+            res = "ok"
+        except ch2.RemoteError as e:
+            res = "RemoteError:deadlock" if "would cause deadlock" in str(e) else "RemoteError"
+        except Exception as e:  # noqa: BLE001
+            res = "exc:" + type(e).__name__
+        ev("body_end", "", ch2.id)
+        ev("ret", "waitclose", ch2.id, res=res)
+        ev("end")
+    finally:
+        g.terminate(timeout=3)
+    return {"events": evs, "history": ["group-round: first member raises, second still runs", "group-round"], "made_by": "group_round_case"}
 
 
 def run(ctx):
